@@ -56,17 +56,36 @@ def tree_samples(rng, twins=False):
             host = rng.choice(inner) if inner else first
         host[a] = dict(leaf)
         host[b] = dict(leaf) if rng.random() < 0.7 else [dict(leaf)]
+    if rng.random() < 0.12:
+        # a model and its own descendant whose class names coincide only after label conversion (Café / Cafe, Größe / Grosse)
+        n = len(used)
+        a, b = rng.choice([("café", "cafe"), ("größe", "grosse"), ("naïve", "naive"), ("a b", "ab"), ("list", "list_")])
+        first[f"{a}{n}"] = {f"{b}{n}": {"v": 1, f"w{n}": "s"}, f"n{n}": 2}
+        used.update({f"{a}{n}", f"{b}{n}"})
     samples = [first]
     if rng.random() < 0.5:
         samples.append({k: v for k, v in first.items() if rng.random() < 0.7} or dict(first))
     return samples
 
 
+def chain_samples(rng):
+    """one object chain of 30-96 levels with a distinct key per level (CPython limits the nested layout to <100 levels)"""
+    d = rng.choice([30, 60, 91, 93, 96])
+    v = {"leaf": rng.choice([1, "s", [1]])}
+    for lvl in reversed(range(d)):
+        v = {f"node{lvl}": v, "n": lvl} if lvl % 7 else {f"node{lvl}": v}
+    return [v]
+
+
 def gen_cases_for(seed_, n):
     cases = []
     for i in range(n):
         rng = rng_for(PROP, seed_, i)
-        if i % 4 == 3:
+        if i % 250 == 9:
+            samples = chain_samples(rng)
+            opts = gen.options(rng, samples, frameworks=["base", "pydantic", "attrs", "dataclasses", "sqlmodel"], allow_dict_opts=False)
+            opts["merge"] = []
+        elif i % 4 == 3:
             jc = gen.json_case(rng)  # arbitrary graphs: "exactly once in flat" clause; trees are found among them too
             samples = jc["samples"]
             opts = gen.options(rng, samples, frameworks=["base", "pydantic", "attrs", "dataclasses"])
@@ -77,7 +96,8 @@ def gen_cases_for(seed_, n):
             opts["merge"] = rng.choice([[["exact"]], [["exact"]], [["percent", 1.0]], [["number", 50]], opts["merge"]])
             if twins:
                 opts["merge"] = [["number", rng.choice([10, 50])]]
-        cases.append({"i": i, "models": [["Root", samples]], "opts": opts})
+        # every second case renders each layout from its own, fresh inference run (as two CLI invocations do)
+        cases.append({"i": i, "models": [["Root", samples]], "opts": opts, "fresh_nested": i % 2 == 1})
     return cases
 
 
@@ -102,6 +122,7 @@ def run_case(case):
         return {"status": "outside", "why": "generation raised (C01 reports it)", "witnesses": [], "counters": {}}
     tree = driver.is_tree(run.registry)
     nmodels = len(run.registry.models_map)
+    run_n = run
     wit = []
 
     def W(mech, msg):
@@ -111,7 +132,9 @@ def run_case(case):
     root_model = run.root_ptrs[0].type
     try:
         flat_code = driver.render(run, opts, flat=True)
-        nested_code = driver.render(run, opts, flat=False)
+        if case.get("fresh_nested"):
+            run_n = driver.infer(models, opts)
+        nested_code = driver.render(run_n, opts, flat=False)
     except Exception as e:
         if type(e).__name__ == "CaseTimeout":
             raise
@@ -121,24 +144,27 @@ def run_case(case):
     try:
         cf = mme.census(flat_code)
         cn = mme.census(nested_code)
-    except SyntaxError:
+    except (SyntaxError, ValueError):
         return {"status": "outside", "why": "emitted text does not parse (C03 reports it)", "witnesses": [], "counters": {}}
     expected_names = sorted(m.name for m in run.registry.models)
     if sorted(c["name"] for c in cf["classes"]) != expected_names:
         W("flat-model-not-exactly-once", f"flat layout defines {sorted(c['name'] for c in cf['classes'])} for models {expected_names}")
-    cnt = {"flat_modules": 1, "models": nmodels, "tree_graphs": int(tree)}
+    cnt = {"flat_modules": 1, "models": nmodels, "tree_graphs": int(tree), "layouts_from_separate_runs": int(bool(case.get("fresh_nested")))}
+    dup_names = {n for n in expected_names if expected_names.count(n) > 1}  # (C03 reports those); placement is judged for unambiguous names
+    cnt["classes_with_ambiguous_name"] = len(dup_names)
     first_cls = next((n for n in cf["tree"].body if isinstance(n, ast.ClassDef)), None)
     if tree:
         if first_cls is None or first_cls.name != root_name:
             W("flat-root-not-first", f"flat layout starts with class {getattr(first_cls, 'name', None)!r}, root model is {root_name!r}")
-        if sorted(c["name"] for c in cn["classes"]) != expected_names:
-            W("nested-model-not-exactly-once", f"nested layout defines {sorted(c['name'] for c in cn['classes'])} for models {expected_names}")
+        expected_nested = sorted(m.name for m in run_n.registry.models)
+        if sorted(c["name"] for c in cn["classes"]) != expected_nested:
+            W("nested-model-not-exactly-once", f"nested layout defines {sorted(c['name'] for c in cn['classes'])} for models {expected_nested}")
     if tree:
         # placement from the ast census (does not need the module to load)
-        by_name0 = {m.name: m for m in run.registry.models}
+        by_name0 = {m.name: m for m in run_n.registry.models}
         for c in cn["classes"]:
             m = by_name0.get(c["name"])
-            if m is None:
+            if m is None or c["name"] in dup_names:
                 continue
             parents = {p.parent.name for p in m.pointers if p.parent is not None}
             encl = c["scope"][-1] if c["scope"] else None
@@ -171,17 +197,20 @@ def run_case(case):
         if set(vf) != set(vn):
             W("class-in-one-layout-only", f"flat has {sorted(vf)}, nested has {sorted(vn)}")
         for name in sorted(set(vf) & set(vn)):
+            if name in dup_names:
+                continue  # two module-level classes of one name: the flat module keeps only the later one (C03 reports the duplicate)
             if vf[name] != vn[name]:
                 a, b = vf[name][0], vn[name][0]
                 diff = [k for k in set(a) | set(b) if a.get(k) != b.get(k)]
                 W("class-differs-between-layouts", f"class {name}: fields {sorted(diff)} differ: flat {[a.get(k) for k in sorted(diff)]!r:.250} "
                                                    f"nested {[b.get(k) for k in sorted(diff)]!r:.250}")
         # placement: each class sits inside the class that references it
-        by_name = {m.name: m for m in run.registry.models}
+        by_name = {m.name: m for m in run_n.registry.models}
         depth = 0
         for info in tn.values():
             m = by_name.get(info.name)
-            if m is None:
+            depth = max(depth, info.qualname.count("."))
+            if m is None or info.name in dup_names:
                 continue
             parents = {p.parent.name for p in m.pointers if p.parent is not None}
             encl = info.qualname.split(".")[-2] if "." in info.qualname else None
@@ -204,13 +233,14 @@ def main():
     v = Verdict(PROP, "exploration",
                 "3/4 of the cases: inputs built to give tree-shaped model graphs (distinct key sets per position, depth<=3, exact-like merge "
                 "policies), 1/4 arbitrary schema-derived inputs (shared / recursive graphs) x frameworks; both layouts rendered from one "
-                "registry, loaded, and their class tables compared by class name (annotations name-normalised, defaults, originals); placement "
+                "registry (even cases) or each from its own fresh inference run (odd cases), loaded, and their class tables compared by class name (annotations name-normalised, defaults, originals); placement "
                 "checked against the referrer from the registry; flat: root first, each model exactly once (all inputs). Tree precondition "
                 "computed from the registry; non-tree graphs are only judged for flat completeness. non-trivial = tree with >=3 models and "
                 "nesting depth >=2",
-                ["both layouts are rendered from the same registry in the order flat, nested (re-rendering is C14's subject)"])
+                ["even cases render both layouts from one registry in the order flat, nested; odd cases infer twice and render one layout each",
+                 "classes whose converted name is shared by two models (a listed C03 finding) are not compared and not judged for placement"])
     results, infra = run_shards(PROP, cases, timeout_per_case=8)
     v.infra = infra
     for c, r in zip(cases, results):
         v.add(c, r, sample_view={"samples": c["models"][0][1][:2], "framework": c["opts"]["framework"], "merge": c["opts"]["merge"]})
-    return v.finish(floor_nontrivial=100, monitors_required=("flat_modules", "tree_graphs", "classes_compared", "fields_compared"))
+    return v.finish(floor_nontrivial=100, monitors_required=("flat_modules", "tree_graphs", "classes_compared", "fields_compared", "layouts_from_separate_runs"))
